@@ -51,6 +51,10 @@ func planFor(prop string) staticPlan {
 	case "C10":
 		o.OtherDest, o.ForceSkip = 0.6, 0.5
 		p.opts = o
+		// source packages named like std packages the output imports as well (sync is always imported)
+		syncSrc, httpSrc := gen.ProfGeneral, gen.ProfImports
+		syncSrc.SrcName, httpSrc.SrcName = "sync", "http"
+		p.profiles = []gen.Profile{gen.ProfGeneral, syncSrc, gen.ProfImports, gen.ProfGeneric, httpSrc, gen.ProfNaming}
 		p.rule = base + "at least one method; destinations and -skip-ensure over-sampled"
 	case "C11":
 		p.profiles = []gen.Profile{gen.ProfImports, gen.ProfImports, gen.ProfGeneral, gen.ProfNaming}
